@@ -25,7 +25,7 @@ type PoolCfg struct {
 	MaxPoolKB   int  `json:"max_pool_kb,omitempty"`  // 0: the default 500 MB; else the size limit in KB (verif hook)
 	NotFullRBF  bool `json:"not_full_rbf,omitempty"` // CFG.TXPool.NotFullRBF
 	NoMemInputs bool `json:"no_mem_inputs,omitempty"`
-	Ring        int  `json:"ring,omitempty"`       // CFG.TXPool.RejectRecCnt (>= 100)
+	Ring        int  `json:"ring,omitempty"`         // CFG.TXPool.RejectRecCnt (>= 100)
 	MaxNoUtxoB  int  `json:"max_noutxo_b,omitempty"` // 0: default; else common.MaxNoUtxoSizeBytes
 	MaxRejectB  int  `json:"max_reject_b,omitempty"` // 0: default; else common.MaxRejectedSizeBytes
 }
@@ -49,11 +49,11 @@ type InSel struct {
 type TxSpec struct {
 	Ins   []InSel       `json:"ins"`
 	Outs  []sim.OutSpec `json:"outs,omitempty"`
-	Rate  int           `json:"rate,omitempty"`  // index into the fee-rate table (sat per 1000 vbytes)
-	Rel   int           `json:"rel,omitempty"`   // fee relative to the conflicting set: 1 below, 2 at, 3 just above the replacement threshold, 4 double
-	Lock  int           `json:"lock,omitempty"`  // 0 none, 1/2 final by height/time, 3..6 not final, 7 future lock but all sequences final
+	Rate  int           `json:"rate,omitempty"` // index into the fee-rate table (sat per 1000 vbytes)
+	Rel   int           `json:"rel,omitempty"`  // fee relative to the conflicting set: 1 below, 2 at, 3 just above the replacement threshold, 4 double
+	Lock  int           `json:"lock,omitempty"` // 0 none, 1/2 final by height/time, 3..6 not final, 7 future lock but all sequences final
 	Ver   int           `json:"ver,omitempty"`
-	Bad   string        `json:"bad,omitempty"`   // "", "script", "overspend"
+	Bad   string        `json:"bad,omitempty"`    // "", "script", "overspend"
 	PadKB int           `json:"pad_kb,omitempty"` // extra OP_RETURN output of that many KB (eviction tests)
 }
 
@@ -75,19 +75,22 @@ type TxSpec struct {
 //	         13 days), Arg bit0 forces the expiry scan; Ring > 0 changes CFG.TXPool.RejectRecCnt first
 //	ladder   N consecutive insertions into one gap of the rank-ordered list (see ladder_test.go)
 //	deepreorg  a branch of empty blocks replaces the last 101+Arg blocks (deeper than the coinbase maturity)
-//	save     MempoolSave(true) + MempoolLoad(); Arg bit0: with a restart of the chain in between
+//	save     MempoolSave(true) + MempoolLoad(); Arg bit0: with a restart of the chain in between; Fault/Off: the
+//	         file is damaged in between (truncated at a drawn offset, a verifiable byte flipped, removed)
 type Op struct {
-	K    string  `json:"k"`
-	Blk  *sim.Op `json:"blk,omitempty"`
-	Net  bool    `json:"net,omitempty"`
-	Tx   *TxSpec `json:"tx,omitempty"`
-	Path int     `json:"path,omitempty"`
-	Pick int     `json:"pick,omitempty"`
-	N    int     `json:"n,omitempty"`
-	Arg  int     `json:"arg,omitempty"`
-	Ring int     `json:"ring,omitempty"`
-	DT   int     `json:"dt,omitempty"`
-	NoL  bool    `json:"nol,omitempty"` // do not evaluate GetSortedMempoolRBF after this step (it rebuilds lists and packages)
+	K     string  `json:"k"`
+	Blk   *sim.Op `json:"blk,omitempty"`
+	Net   bool    `json:"net,omitempty"`
+	Tx    *TxSpec `json:"tx,omitempty"`
+	Path  int     `json:"path,omitempty"`
+	Pick  int     `json:"pick,omitempty"`
+	N     int     `json:"n,omitempty"`
+	Arg   int     `json:"arg,omitempty"`
+	Ring  int     `json:"ring,omitempty"`
+	DT    int     `json:"dt,omitempty"`
+	Fault int     `json:"fault,omitempty"` // save: damage the file between save and load: 1 truncate, 2 flip a byte, 3 remove
+	Off   int     `json:"off,omitempty"`   // save: where (see faultFile)
+	NoL   bool    `json:"nol,omitempty"`   // do not evaluate GetSortedMempoolRBF after this step (it rebuilds lists and packages)
 }
 
 type Case struct {
@@ -300,7 +303,8 @@ func genCase(t *rapid.T, minOps, maxOps int) Case {
 			c.Ops = append(c.Ops, Op{K: "tick", N: rapid.IntRange(0, 4).Draw(t, "nold"), Pick: rapid.IntRange(0, 1<<12).Draw(t, "pick"),
 				Arg: rapid.IntRange(0, 3).Draw(t, "targ"), Ring: rapid.SampledFrom([]int{0, 0, 0, 100, 117, 300}).Draw(t, "ring"), NoL: nol})
 		case k < 94:
-			c.Ops = append(c.Ops, Op{K: "save", Arg: rapid.SampledFrom([]int{0, 0, 0, 1}).Draw(t, "sarg"), NoL: nol})
+			c.Ops = append(c.Ops, Op{K: "save", Arg: rapid.SampledFrom([]int{0, 0, 0, 1}).Draw(t, "sarg"), NoL: nol,
+				Fault: rapid.SampledFrom([]int{0, 0, 0, 0, 0, 1, 1, 1, 1, 2, 3}).Draw(t, "fault"), Off: rapid.IntRange(0, 1<<20).Draw(t, "off")})
 		case k < 97:
 			if rapid.IntRange(0, 5).Draw(t, "idle") == 0 {
 				c.Ops = append(c.Ops, Op{K: "blk", Blk: &sim.Op{Kind: "idle", Arg: rapid.IntRange(0, 1).Draw(t, "wait")}})
